@@ -204,12 +204,16 @@ class SymmetryAnalyzer(object):
         Returns:
             bool: is the object chiral.
         """
-        operations = self.get_symmetry_operations()
+        # The operations of the space group type are used instead of the
+        # operations reported for the input cell: for supercells that break the
+        # lattice symmetry spglib only reports the subset of operations that is
+        # compatible with the given cell.
+        operations = spglib.get_symmetry_from_database(self.get_hall_number())
         rotations = operations["rotations"]
         chiral = True
         for rotation in rotations:
-            determinant = np.linalg.det(rotation)
-            if determinant == -1.0:
+            determinant = int(round(np.linalg.det(rotation)))
+            if determinant == -1:
                 return False
 
         return chiral
